@@ -78,7 +78,7 @@ func solveFor(j, rest *Term, c *big.Int) (*Term, bool) {
 	return nil, false
 }
 
-func instantiateQuantifiers(asserts []*Term) []*Term {
+func instantiateQuantifiers(asserts []*Term, useAliases bool) []*Term {
 	var out []*Term
 	seen := map[[2]int]bool{}
 	total := 0
@@ -92,6 +92,15 @@ func instantiateQuantifiers(asserts []*Term) []*Term {
 		bvIdx := map[*Sort][]*Term{}
 		groundApps := map[string][]*Term{}
 		added := 0
+		// arrays asserted equal (snapshots bound by lemma functions): (= A B), possibly under a guard
+		arrayAliases := map[*Term][]*Term{}
+		aliasBusy := map[*Term]bool{}
+		for _, t := range ord {
+			if useAliases && t.Op == "=" && len(t.Args) == 2 && !t.hasB && t.Args[0].S != nil && t.Args[0].S.K == SArray && t.Args[0].S == t.Args[1].S {
+				arrayAliases[t.Args[0]] = append(arrayAliases[t.Args[0]], t.Args[1])
+				arrayAliases[t.Args[1]] = append(arrayAliases[t.Args[1]], t.Args[0])
+			}
+		}
 		for _, t := range ord {
 			switch t.Op {
 			case "select":
@@ -101,6 +110,16 @@ func instantiateQuantifiers(asserts []*Term) []*Term {
 					var reg func(a *Term, depth int)
 					reg = func(a *Term, depth int) {
 						ground[a] = append(ground[a], idxs...)
+						// an array asserted equal to this one is read at the same indices
+						if depth <= 8 {
+							for _, al := range arrayAliases[a] {
+								if !aliasBusy[al] {
+									aliasBusy[al] = true
+									reg(al, depth+1)
+									aliasBusy[al] = false
+								}
+							}
+						}
 						if depth > 8 {
 							return
 						}
